@@ -538,6 +538,8 @@ def World.exec (w : World) (blk : Block) : Op → Res (World × Outcome)
     let s ← ibcChannelConnect w.st id v cv ord
     pure ({ w with st := s }, {})
   | .transferNative snd funds msg => do
+    -- the contract never sends a message to itself
+    check (snd != w.self) "impossible.self"
     -- the runtime moves the funds first (fails if the sender cannot cover them)
     let w1 ← (match funds with
       | [(d, amt)] =>
@@ -550,6 +552,7 @@ def World.exec (w : World) (blk : Block) : Op → Res (World × Outcome)
     let (s, out) ← execTransferNative w1.st blk snd funds msg
     pure ({ w1 with st := s }, { sent := [out] })
   | .sendCw20 snd token amt msg => do
+    check (snd != w.self) "impossible.self"
     check (w.tokens.contains token) "notoken"
     let w1 ← (match w.tokSend token snd w.self amt with
       | some w1 => .ok w1
